@@ -35,12 +35,12 @@ Inductive Esc : N -> str -> Prop :=
 
 Inductive ctx := CDQ | CSQ | CBare.
 
-(* may character c stand for itself?  [pw]: the previous decoded character of this run is whitespace (or none) *)
+(* may character c (never NUL) stand for itself?  [pw]: the previous decoded character of this run is whitespace (or none) *)
 Definition lit_ok (k : ctx) (pw : bool) (c : N) : bool :=
   match k with
-  | CDQ => negb (c =? cDQ) && negb (c =? cBS)
-  | CSQ => negb (c =? cSQ) && negb (c =? cBS)
-  | CBare => negb (c =? cBS) && negb (is_ws3 c) && (negb (is_q c) || negb pw)
+  | CDQ => negb (c =? 0) && negb (c =? cDQ) && negb (c =? cBS)
+  | CSQ => negb (c =? 0) && negb (c =? cSQ) && negb (c =? cBS)
+  | CBare => negb (c =? 0) && negb (c =? cBS) && negb (is_ws3 c) && (negb (is_q c) || negb pw)
   end.
 
 (* Body k pw decoded raw *)
